@@ -109,7 +109,7 @@ func tokenSoup(rng *vlib.RNG, n int) string {
 // deep into the declaration parsers before going wrong.
 func keywordSoup(rng *vlib.RNG, n int) string {
 	starts := []string{"syntax", "edition", "package", "import", "import public", "import weak", "import option", "option", "message", "enum", "service", "extend",
-		"oneof", "group", "optional group", "rpc", "reserved", "extensions", "optional", "repeated", "required", "map<", "stream", "returns", "export", "local", "export message", "local enum"}
+		"oneof", "group", "optional group", "rpc", "reserved", "extensions", "reserved", "extensions", "enum E { reserved", "message M { reserved", "message M { extensions", "optional", "repeated", "required", "map<", "stream", "returns", "export", "local", "export message", "local enum"}
 	mids := []string{"=", ";", "{", "}", "(", ")", "[", "]", "<", ">", ",", ".", ":", "to", "max", "-", "a", "b.c", "(a.b)", "(a).b", "1", "-1", "0x10", "1.5", `"s"`, `'s'`, "true", "inf",
 		"int32", "string", "map<string, int32>", "map<", ".a.B", "stream", "returns", "[default = 1]", "[(a) = {b: 1}]", "{a: 1}", "{a {b: 1}}", "[1, 2]", "<a: 1>", "[a.b/c.D]: {}", "// c\n", "/* c */", "\n"}
 	var sb strings.Builder
